@@ -70,21 +70,40 @@ def eval_num(n, env):
         if nm == "floor":
             v = eval_num(n[2][0], env)
             return Fraction(math.floor(v)) if v is not None else None
+        if nm == "sum" and n[2] and env.get("__prog") is not None:
+            # CONST[..end].iter().sum() / CONST[a..b].iter().sum() over a constant array of the workspace
+            x = strip(n[2][0])
+            while x[0] == "call" and short_callee(x[1]) in ("iter", "into_iter", "copied", "cloned") and x[2]:
+                x = strip(x[2][0])
+            if x[0] == "call" and short_callee(x[1]) == "index" and len(x[2]) == 2:
+                arr, rng = strip(x[2][0]), strip(x[2][1])
+                d = dict(arr[1]).get("def") if arr[0] == "kx" else None
+                vals = const_array_numbers(env["__prog"], d) if d else None
+                if vals is not None and rng[0] == "agg":
+                    fl = dict(zip(rng[2], rng[3]))
+                    lo = eval_num(fl["start"], env) if "start" in fl else Fraction(0)
+                    hi = eval_num(fl["end"], env) if "end" in fl else Fraction(len(vals))
+                    if rng[1].split("::")[-1] == "RangeToInclusive" and hi is not None:
+                        hi += 1
+                    if lo is not None and hi is not None and 0 <= lo <= hi <= len(vals):
+                        return sum((Fraction(v) for v in vals[int(lo):int(hi)]), Fraction(0))
     return None
 
 
-def check_day_of_year(ctx, prog, fn, month_days, rule="c17.calendar"):
+def check_day_of_year(ctx, prog, fn, month_days, rule="c17.calendar", day_first=True):
     sc = Scope(prog, fn)
     rn = returned_nodes(fn.body)
     if len(rn) != 1:
         raise AnalysisError("%s: one return expected" % fn.path)
     node = strip(sc._rw(rn[0][1]))
     names = [fn.body.names.get(i) for i in range(1, fn.body.argc + 1)]
+    if not day_first:
+        names = [names[1], names[0]]
     cum = 0
     bad = []
     for m in range(1, 13):
         for d in (1, int(month_days[m - 1])):
-            v = eval_num(node, {names[0]: Fraction(d), names[1]: Fraction(m)})
+            v = eval_num(node, {names[0]: Fraction(d), names[1]: Fraction(m), "__prog": prog})
             want = cum + d
             if v is None:
                 raise AnalysisError("%s: expression not foldable (%s)" % (fn.path, show(node)[:120]))
@@ -113,11 +132,38 @@ def run(ctx):
     prog = ctx.prog
     md = const_array_numbers(prog, "climate::MONTH_DAYS")
     ctx.require(md is not None and len(md) == 12 and sum(md) == 365, "climate::MONTH_DAYS not readable or not a 365-day year")
-    doy = prog.find("bemodel::convert::from_ctehexml::day_of_year")
-    check_day_of_year(ctx, prog, doy, md)
     # ---------------- schedules_from_bdl dispatch
     sf = prog.find("bemodel::convert::from_ctehexml::schedules_from_bdl")
     root = Scope(prog, sf)
+    # the function that turns (day, month) of a yearly schedule into a day number, found by its role: the workspace function called, inside
+    # the closure over zip(days, months), with the two components of the pair
+    import re as _re
+    from ..mir import callee_id
+    role = []
+    for s2 in root.all_scopes():
+        for b2, t2 in s2.body.calls():
+            cid = callee_id(t2)
+            if cid not in prog.fns or len(t2["args"]) != 2:
+                continue
+            a0, a1 = strip(s2.eb.operand(t2["args"][0])), strip(s2.eb.operand(t2["args"][1]))
+            if not (a0[0] == "proj" and a1[0] == "proj" and a0[1] == a1[1] and {a0[2][-1], a1[2][-1]} == {".0", ".1"}):
+                continue
+            par = s2.parent
+            rtxt = ""
+            while par is not None and not rtxt:
+                for (b3, t3, ch3) in par.children():
+                    if ch3.fn.id == s2.fn.id:
+                        rtxt = show(strip(par.operand(t3["args"][0])))
+                par = par.parent if not rtxt else None
+            m = _re.match(r"^zip\(iter\(deref\((.*?)\.(days|months)\)\), iter\(deref\((.*?)\.(days|months)\)\)\)$", rtxt)
+            if m and m.group(2) != m.group(4):
+                # which component is the day: zip order x argument order
+                first_is_day = m.group(2) == "days"
+                arg0_is_first = a0[2][-1] == ".0"
+                role.append((prog.fns[cid], first_is_day == arg0_is_first, t2.get("ln")))
+    ctx.require(len(role) == 1, "schedules_from_bdl: the (day, month) -> day number call over zip(days, months) was not found (%d candidates)" % len(role))
+    doy, day_first, doy_ln = role[0]
+    check_day_of_year(ctx, prog, doy, md, day_first=day_first)
     from .c02 import leads_to_err
     for label, suffix, lens in (("daily", "@Day.0.values", ("1", "24")), ("weekly", "@Week.0.days", ("1", "7"))):
         arms, els, b = len_dispatch(root, sf.body, suffix)
@@ -145,7 +191,8 @@ def run(ctx):
         t = strip(u["term"])
         if t[0] == "agg" and t[1] == "vec" and len(t[3]) == 1:
             e = strip(t[3][0])
-            if e[0] == "agg" and len(e[3]) == 2 and strip(e[3][1])[0] == "k" and strip(e[3][1])[1] == "7" and "schedule_day_id" in show(e[3][0]):
+            if e[0] == "agg" and len(e[3]) == 2 and strip(e[3][1])[0] == "k" and strip(e[3][1])[1] == "7" and \
+                    any(x[0] == "call" and "IdMaps" in x[1] and "first(" in show(x) and ".days" in show(x) for x in walk(e[3][0])):
                 ok7 = True
     if ok7:
         ctx.ok("c17.calendar", "c17.calendar|weekly-single", "a weekly schedule with one daily schedule expands to (id, 7)", sf.loc())
@@ -187,26 +234,10 @@ def run(ctx):
             ctx.ok("c17.calendar", "c17.calendar|period-lengths", "length = end[i+1] - end[i] over [0, day_of_year(day, month)...] (zip of the list with itself skipped by one)", sf.loc(t.get("ln")))
         else:
             ctx.violation("c17.calendar", "c17.calendar|period-lengths", "period length computation is %s over %s" % ((show(raw0)[:40], show(raw1)[:40]), recv_txt[:120]), sf.loc(t.get("ln")))
-        # day_of_year receives (day, month) from zip(days, months)
-        okorder = False
-        for s2 in root.all_scopes():
-            for b2, t2 in s2.body.calls():
-                if short_callee(callee_name(t2) or "") == "day_of_year":
-                    a0, a1 = strip(s2.eb.operand(t2["args"][0])), strip(s2.eb.operand(t2["args"][1]))
-                    par = s2.parent
-                    rtxt = ""
-                    while par is not None and not rtxt:
-                        for (b3, t3, ch3) in par.children():
-                            if ch3.fn.id == s2.fn.id:
-                                rtxt = show(strip(par.operand(t3["args"][0])))
-                        par = par.parent if not rtxt else None
-                    import re as _re
-                    m = _re.match(r"^zip\(iter\(deref\((.*?)\.days\)\), iter\(deref\((.*?)\.months\)\)\)$", rtxt)
-                    okorder = bool(m) and a0[0] == "proj" and a1[0] == "proj" and a0[2][-1] == ".0" and a1[2][-1] == ".1"
-        if okorder:
-            ctx.ok("c17.calendar", "c17.calendar|day-month-order", "day_of_year(day, month) is fed from zip(days, months) in that order", sf.loc())
-        else:
-            ctx.violation("c17.calendar", "c17.calendar|day-month-order", "day/month arguments of day_of_year do not follow zip(days, months)", sf.loc())
+        # the day-number function receives day and month in the order of its parameters (decided above, where the closed form is
+        # evaluated with the parameter that receives the `days` component as the day)
+        ctx.ok("c17.calendar", "c17.calendar|day-month-order", "%s receives the components of zip(days, months); the closed form was checked with the parameter fed from `days` as the day"
+               % doy.path.split("::")[-1], sf.loc(doy_ln))
     # ---------------- D2 weekday alignment
     g = prog.method("types::schedules::SchedulesDb", None, "get_year_as_day_sch")
     gs = Scope(prog, g)
@@ -265,7 +296,8 @@ def run(ctx):
             txt = " ".join(show(strip(sc._rw(rn))) for _, rn in returned_nodes(sc.body))
             body_txt = " ".join(origin_desc(sc.operand(sc.body.blocks[b]["term"]["d"])) for b in range(sc.body.n) if sc.body.blocks[b]["term"]["t"] == "switch")
             body_txt += " " + " ".join(origin_desc(strip(sc._rw(sc.eb.call_node(t, b)))) for b, t in sc.body.calls() if t["dest"] == 0)
-            if "loads" in body_txt and "inside_tenv" in body_txt:
+            # found by role (a selection of spaces that looks at their loads), not by the conjunct this rule is about
+            if "loads" in body_txt and ("inside_tenv" in body_txt or "kind" in body_txt):
                 preds.append(sc)
     ctx.floor("c17.occupancy", "occupancy predicates", len(preds), 2)
     for i, sc in enumerate(preds):
